@@ -107,6 +107,9 @@ class ExactModel(gpytorch.models.ExactGP):
             self.covar_module = K.ScaleKernel(K.MaternKernel(nu=2.5, ard_num_dims=d, batch_shape=bs), batch_shape=bs)
         elif fam == "sumprod":
             self.covar_module = K.ScaleKernel(K.RBFKernel(batch_shape=bs), batch_shape=bs) + K.LinearKernel(batch_shape=bs) * K.PeriodicKernel(batch_shape=bs)
+        elif fam == "sharedbase":   # ONE kernel object (carrying the lengthscale prior) used in two places of a composite kernel
+            rbf = K.RBFKernel(batch_shape=bs, lengthscale_prior=P.GammaPrior(2.0, 3.0) if "ls" in priors else None)
+            self.covar_module = K.ScaleKernel(rbf, batch_shape=bs) + K.ScaleKernel(rbf, batch_shape=bs) * K.LinearKernel(batch_shape=bs)
         elif fam == "linearmean":
             self.mean_module = gpytorch.means.LinearMean(d, batch_shape=bs)
             self.covar_module = base
